@@ -4,6 +4,7 @@
     g node <n> <m|b> <succs>      declare a node: manifest (fetched for successors) or blob
     g have <n> <0|1>              whether n's bytes are fetchable (for indexAll)
     g index <n>
+    g indexall <n>                Memory.IndexAll from n (every node fetchable)
     g remove <n>                  -> dang=<set>
     g preds <k>                   -> <set>      (model)  /  spec from storedSpec
     g exists <k>
@@ -26,6 +27,14 @@ def St.succF (s : St) : Key → List Key := fun n => lookupD s.succ n []
 def specPreds (s : St) (k : Key) : List Key :=
   s.univ.filter (fun p => storedSpec s.hist p && (s.succF p).contains k)
 
+/-- Spec side of `indexall`: what is reachable from the frontier, expanding manifests only. -/
+def reachFrom (s : St) : Nat → List Nat → List Nat → List Nat
+  | 0, _, acc => acc
+  | fuel + 1, frontier, acc =>
+    let fresh := dedup (frontier.filter (fun k => !acc.contains k))
+    if fresh.isEmpty then acc
+    else reachFrom s fuel (fresh.flatMap (fun k => if lookupD s.isMan k false then s.succF k else [])) (acc ++ fresh)
+
 def step (s : St) (toks : List String) : Option (St × String × String) :=
   match toks with
   | ["new"] => some ({}, "ok", "ok")
@@ -37,6 +46,13 @@ def step (s : St) (toks : List String) : Option (St × String × String) :=
   | ["index", n] => do
       let n ← n.toNat?
       some ({ s with g := s.g.index n (s.succF n), hist := s.hist ++ [.index n] }, "ok", "ok")
+  | ["indexall", n] => do   -- Memory.IndexAll from n, everything fetchable
+      let n ← n.toNat?
+      let succOf : Key → Option (List Key) := fun k =>
+        if lookupD s.isMan k false then some (s.succF k) else some []
+      let g' := GMem.indexAll succOf (s.univ.length + 1) s.g n
+      let reach := reachFrom s (s.univ.length + 1) [n] []
+      some ({ s with g := g', hist := s.hist ++ reach.map GOp.index }, "ok", "ok")
   | ["remove", n] => do
       let n ← n.toNat?
       let (g', dang) := s.g.remove n
